@@ -28,6 +28,10 @@ pub struct GateState {
     pub permits: usize,
     pub waiters: Vec<Waker>,
     pub waits_pending: u64,
+    /// world sequence number at which the gate was first opened (0: never); handler invocations
+    /// carry sequence numbers from the same counter, so "started after the gate opened" is
+    /// decidable even when both happen at the same virtual instant
+    pub first_open_seq: u64,
 }
 
 #[derive(Clone, Debug, PartialEq)]
@@ -195,7 +199,12 @@ pub fn open_gate(w: &W, g: usize, permits: usize) {
         if g >= wd.gates.len() {
             return;
         }
+        wd.seq += 1;
+        let seq = wd.seq;
         let gs = &mut wd.gates[g];
+        if gs.first_open_seq == 0 {
+            gs.first_open_seq = seq;
+        }
         gs.permits = gs.permits.saturating_add(permits);
         std::mem::take(&mut gs.waiters)
     };
